@@ -136,7 +136,13 @@ class Z3Alg:
             a = z3.ToReal(a)
         if z3.is_int(b):
             b = z3.ToReal(b)
-        return a / b
+        if z3.is_rational_value(b) or z3.is_int_value(b):
+            return a / b
+        # quotient as a fresh variable with its cleared-denominator defining equation (DESIGN 2.4): q*b == a when
+        # b != 0; for b == 0 the value is unconstrained, exactly z3's own semantics of division by zero
+        q = self.ctx.fresh("quot", "real")
+        self.ctx.assume(z3.Implies(b != 0, q.v * b == a), silent=True)
+        return q.v
 
     def cconst(self, z):
         raise NotImplementedError("complex constants under the z3 algebra")
